@@ -251,6 +251,9 @@ def cases(tier, seed):
         required=kind == 'laplacian')
     add('case_lattice', kind=kind, sizes=[2, 3, 2], units=2, l1=sc[0], l2=0.0, timeout=200, required=kind == 'laplacian')
     add('case_lattice', kind=kind, sizes=[3, 2, 2], units=1, l1=0.0, l2=[0.25, 1.0, 0.5], timeout=200, required=kind == 'laplacian')
+    # one amount per dimension, the other a scalar (and a tuple instead of a list)
+    add('case_lattice', kind=kind, sizes=[2, 3, 2], units=1, l1=[0.5, 0.25, 1.0], l2=0.25, timeout=200, required=kind == 'laplacian')
+    add('case_lattice', kind=kind, sizes=[3, 3], units=2, l1=0.0625, l2=[0.5, 2.0], timeout=200)
     # a dimension with zero amount in both norms, in front of / between the others; amounts given for one norm only
     add('case_lattice', kind=kind, sizes=[2, 3, 2], units=1, l1=[0.0, 0.5, 2.0], l2=0.0, timeout=200, required=kind == 'laplacian')
     add('case_lattice', kind=kind, sizes=[2, 2, 3], units=2, l1=[0.0, 0.5, 2.0], l2=[0.0, 0.0, 1.0], timeout=200, required=kind == 'laplacian')
